@@ -354,6 +354,7 @@ def conv_batch_size(u, rep, timeout):
 
 def run_property(prop, tier, seed):
     rep = R.Report(prop, tier, seed); timeout = solve.TIMEOUT_MS[tier]
+    R.prefetch_native('props.c02_native', ['bounded', prop, str(seed), tier])      # the stand-in runs while the obligations are discharged
     u = Under()
     if prop == 'C02':
         for k in ('set_batch_size', '_floor_to_most_significant_digit', 'Container.__init__', 'Container.trace_size', 'Container._set_preprocesses', 'Container._set_ths', 'Container._set_frame', 'Container._compute_batch_size',
